@@ -147,7 +147,7 @@ Section PQProofs.
     - intros j Hj Nj. assert (0 <= (j - 1) / 2 < j) by dlia. rewrite !P1 by lia. apply Ho. lia.
     - intros _ j Hj Ej. exfalso. dlia.
     - rewrite Hs. cbn [bind]. eexists; split; [reflexivity|]. split.
-      + unfold pq_inv. split; [unfold b1 in L'; rewrite len_upd in L'; lia|]. split; [lia|]. auto.
+      + unfold pq_inv; unfold ModelHeap.entry in *. split; [unfold b1 in L'; rewrite len_upd in L'; lia|]. split; [lia|]. auto.
       + split; [reflexivity|]. unfold contents; simpl fst. etransitivity; [exact E'|].
         unfold b1. apply entries_put; [lia|auto].
   Qed.
@@ -308,7 +308,10 @@ Section PQProofs.
   Qed.
 
   Lemma size_is_length : forall m (s : pq), pq_inv m s -> Z.of_nat (List.length (contents s)) = snd s.
-  Proof. intros m [b n] (Hl & Hn & Fl & Ho). unfold contents; simpl. apply entries_length_filled; auto; lia. Qed.
+  Proof.
+    intros m [b n] (Hl & Hn & Fl & Ho). unfold contents; simpl. unfold ModelHeap.entry in *.
+    apply entries_length_filled; auto; lia.
+  Qed.
 
   (** ** pop *)
   Lemma pop_spec : forall m (s : pq), pq_inv m s -> 0 < snd s ->
@@ -327,7 +330,7 @@ Section PQProofs.
     assert (E1 : Permutation (entries b) ((rp, rv) :: entries b1)) by (apply entries_take; [lia|auto]).
     destruct (Z.eqb_spec (n - 1) 0) as [Hz|Hnz].
     - exists rp, rv, (b1, n - 1). split; [reflexivity|]. split.
-      + unfold pq_inv. split; [unfold b1; rewrite len_upd; lia|]. split; [lia|]. split.
+      + unfold pq_inv; unfold ModelHeap.entry in *. split; [unfold b1; rewrite len_upd; lia|]. split; [lia|]. split.
         * intros j Hj. rewrite B1. destruct (Z.eqb_spec j 0); [split; [lia|auto]|].
           split; [lia|]. intros. apply Fl; lia.
         * intros j Hj. lia.
@@ -354,7 +357,7 @@ Section PQProofs.
         intros [Hge|]; [|lia]. apply Fl; lia.
       + intros j Hj Np. assert (0 <= (j - 1) / 2 < j) by dlia. rewrite !P2 by lia. apply Ho. lia.
       + intros; lia.
-      + rewrite Hs. cbn [bind].
+      + unfold ModelHeap.entry in *. rewrite Hs. cbn [bind].
         assert (Gi' : bget b' i' = None) by (apply (proj2 (Hh' i' ltac:(lia))); auto).
         rewrite (put_ok b' i' (dp, dv)); [|lia|auto]. cbn [bind].
         set (b3 := upd b' i' (Some (dp, dv))).
@@ -362,7 +365,7 @@ Section PQProofs.
         assert (P3 : forall j, prio_at b3 j = vprio b' i' dp j).
         { intros j. unfold vprio, prio_at. rewrite B3. destruct (Z.eqb_spec j i'); auto. }
         exists rp, rv, (b3, ns). split; [reflexivity|]. split.
-        * unfold pq_inv. split; [unfold b3; rewrite len_upd; lia|]. split; [lia|]. split.
+        * unfold pq_inv; unfold ModelHeap.entry in *. split; [unfold b3; rewrite len_upd; lia|]. split; [lia|]. split.
           { intros j Hj. rewrite B3. destruct (Z.eqb_spec j i'); [split; [discriminate|lia]|].
             split; intros; apply Hh'; auto. }
           { intros j Hj. rewrite !P3. apply Ho'; auto. }
@@ -399,7 +402,7 @@ Section PQProofs.
 
   Lemma empty_inv : forall m, 0 <= m -> pq_inv m (@empty_pq T m) /\ contents (@empty_pq T m) = [].
   Proof.
-    intros m Hm. unfold empty_pq, pq_inv, contents. simpl fst. split.
+    intros m Hm. unfold empty_pq, pq_inv, contents; unfold ModelHeap.entry in *. simpl fst. split.
     - split; [unfold len; rewrite repeat_length; lia|]. split; [lia|]. split.
       + intros j Hj. rewrite bget_repeat_none. split; [lia|auto].
       + intros j Hj. lia.
